@@ -266,7 +266,7 @@ func (e *srvEnv) do(method, path string, body []byte, chunked bool) (int, string
 func TestVerifC12(t *testing.T) {
 	const check = "C12.endpoint"
 	res := verifrt.NewResult(check)
-	res.Rule = "requests to the real handler chain (newHandler: log, timeout, request-size, recover middlewares; FS storage) over loopback HTTP: methods {POST, GET, PUT, HEAD, DELETE, PATCH, OPTIONS, lower-case, garbage}; bodies: valid reports with approved contents (hostile X values, config versions, 0-2 programs), each with exactly one invalid aspect (week, config, X==0, each of the five build fields, counter/bucket near-misses, stack names, empty unapproved program, null program entry), truncated JSON, wrong types, partial objects, random bytes, bodies just under/over the size limit with Content-Length and with chunked encoding; requests are sent in sequences so that state carried over between requests shows. Oracle: MUST-STORE => 200 and exactly one new/changed object <upload bucket>/<Week>/<%g of X>.json decoding to the same report; MUST-REJECT => 4xx and storage listing unchanged; always status < 500 and nothing outside the upload bucket. distinct = distinct request bodies; non-trivial = body parses as a JSON object"
+	res.Rule = "requests to the real handler chain (newHandler: log, timeout, request-size, recover middlewares; FS storage) over loopback HTTP: methods {POST, GET, PUT, HEAD, DELETE, PATCH, OPTIONS, lower-case, garbage}; bodies: valid reports with approved contents (hostile X values, config versions, 0-2 programs), re-uploads of a shorter/longer report under an already stored week and X, each with exactly one invalid aspect (week, config, X==0, each of the five build fields, counter/bucket near-misses, stack names, empty unapproved program, null program entry), truncated JSON, wrong types, partial objects, random bytes, bodies just under/over the size limit with Content-Length and with chunked encoding; requests are sent in sequences so that state carried over between requests shows. Oracle: MUST-STORE => 200 and exactly one new/changed object <upload bucket>/<Week>/<%g of X>.json decoding to the same report; MUST-REJECT => 4xx and storage listing unchanged; always status < 500 and nothing outside the upload bucket. distinct = distinct request bodies; non-trivial = body parses as a JSON object"
 	base := vtmp("c12-")
 	defer os.RemoveAll(base)
 	const limit = 100 * 1024
@@ -275,6 +275,13 @@ func TestVerifC12(t *testing.T) {
 	storageRoot := e.cfg.LocalStorage
 	n := verifrt.Scale(3000, 200000)
 	methods := []string{"GET", "PUT", "HEAD", "DELETE", "PATCH", "OPTIONS", "post", "FOO"}
+	// reports accepted since storage was last wiped: (week, X, body length)
+	type accepted struct {
+		week string
+		x    float64
+		n    int
+	}
+	var pool []accepted
 	for i := 0; i < n; i++ {
 		if !verifrt.WantCase(check, i) {
 			continue
@@ -289,6 +296,22 @@ func TestVerifC12(t *testing.T) {
 		chunked := rnd.Intn(4) == 0
 		switch k := i % 10; {
 		case k < 3:
+			if len(pool) > 0 && rnd.Intn(3) == 0 {
+				// the same client (or one that drew the same X) uploads again for
+				// the same week: the object is replaced by exactly the new report
+				prev := pool[rnd.Intn(len(pool))]
+				rep.Week, rep.X = prev.week, prev.x
+				path = "/upload/" + rep.Week
+				if rnd.Intn(2) == 0 {
+					rep.Programs = nil
+				}
+				body, _ = json.Marshal(rep)
+				why = "re-upload-longer-or-equal"
+				if len(body) < prev.n {
+					why = "re-upload-shorter"
+				}
+				break
+			}
 			body, _ = json.Marshal(rep)
 		case k < 7:
 			body, why = invalidate(rnd, rep)
@@ -332,6 +355,7 @@ func TestVerifC12(t *testing.T) {
 			for _, en := range ents {
 				os.RemoveAll(filepath.Join(storageRoot, "test-uploaded", en.Name()))
 			}
+			pool = nil
 		}
 		before := listing(e.root)
 		status, rbody, err := e.do(method, path, body, chunked)
@@ -405,13 +429,14 @@ func TestVerifC12(t *testing.T) {
 			if !bytes.Equal(gb, eb) {
 				res.Violate("stored-differs", fmt.Sprintf("stored object decodes to %.300s, sent %.300s", gb, eb), rp)
 			}
+			pool = append(pool, accepted{rep.Week, rep.X, len(body)})
 		}
 		if i < 3 {
 			res.Sample(map[string]any{"case": i, "method": method, "class": expect + ":" + why, "status": status, "body": fmt.Sprintf("%.200s", body)})
 		}
 	}
 	_ = storageRoot
-	res.Require("store:valid", "reject:week", "reject:config", "reject:X==0", "reject:goos", "reject:goarch", "reject:counter", "reject:stack", "reject:null-program", "reject:empty-unapproved-program",
+	res.Require("store:valid", "store:re-upload-shorter", "store:re-upload-longer-or-equal", "reject:week", "reject:config", "reject:X==0", "reject:goos", "reject:goarch", "reject:counter", "reject:stack", "reject:null-program", "reject:empty-unapproved-program",
 		"reject:truncated", "reject:wrong-type-or-partial", "reject:oversize", "reject:oversize-chunked", "store:near-limit")
 	if err := res.Write(); err != nil {
 		t.Fatal(err)
